@@ -868,14 +868,26 @@ Proof.
   destruct (snd c); [|destruct Hin]. split; [reflexivity|].
   apply in_flat_map in Hin. destruct Hin as (k & Hk & Hin).
   pose proof (forallb_in _ _ _ H Hk) as Hkr.
-  destruct k as [subs|subs|sub|n|]; cbn [object_key_negatives key_respects_modes] in *.
+  destruct k as [subs|subs|sub|n|a]; cbn [object_key_negatives key_respects_modes] in *.
   - destruct (wrap_all_labels _ _ _ _ Hkr Hin) as [H1 H2]. split; [exact H1|left; exact H2].
   - destruct (wrap_all_labels _ _ _ _ Hkr Hin) as [H1 H2]. split; [exact H1|left; exact H2].
   - apply in_map_iff in Hin. destruct Hin as (m & Hit & Hm). subst it. cbn [oi_label oi_sub].
     split; [reflexivity|left]. f_equal. eapply cover_sub_negative_ctx; eassumption.
   - apply in_map_iff in Hin. destruct Hin as (i & Hit & _). subst it. split; [reflexivity|right; reflexivity].
-  - destruct Hin as [Hit|[]]. subst it. split; [reflexivity|right; reflexivity].
+  - destruct (addl_falsy a); [|destruct Hin]. destruct Hin as [Hit|[]]. subst it. split; [reflexivity|right; reflexivity].
 Qed.
+
+(* an unexpected property is added exactly when additionalProperties is falsy; for false that is a violation *)
+Lemma additional_negative_partial : forall c a it,
+  a <> AddlEmptySchema -> In it (object_negatives c [OKAdditional a]) -> addl_forbids a = true.
+Proof.
+  intros c a it Ha Hin. unfold object_negatives in Hin. destruct (snd c); [|destruct Hin].
+  cbn [flat_map object_key_negatives app] in Hin. destruct a; cbn in Hin; [reflexivity|congruence|destruct Hin].
+Qed.
+Lemma additional_negative_refuted :
+  object_negatives (true, true) [OKAdditional AddlEmptySchema] = [{| oi_label := Neg; oi_via := WAdditional; oi_sub := None |}]
+  /\ addl_forbids AddlEmptySchema = false.
+Proof. vm_compute. intuition. Qed.
 
 (* what the seeded change did: iterate the sub-schema with the caller's context *)
 Definition wrap_all_callers_ctx (c : gctx) (mk : nat -> wrapper) (subs : list osub) : list oitem :=
@@ -885,7 +897,7 @@ Definition sub_string : osub := {| os_pos := [Pos; Pos; Pos]; os_neg := [Neg; Ne
 Lemma callers_ctx_flips_labels :
   In {| oi_label := Neg; oi_via := WPatternProperty 0; oi_sub := Some Pos |} (wrap_all_callers_ctx (true, true) WPatternProperty [sub_string])
   /\ sub_respects_modes sub_string = true
-  /\ length (object_negatives (true, true) [OKProperties [sub_string]; OKPatternProperties [sub_string]; OKRequired 1; OKAdditionalFalse]) = 8%nat.
+  /\ length (object_negatives (true, true) [OKProperties [sub_string]; OKPatternProperties [sub_string]; OKRequired 1; OKAdditional AddlFalse]) = 8%nat.
 Proof. vm_compute. intuition. Qed.
 
 (* ---- _positive_object ignores minProperties ---- *)
